@@ -584,7 +584,7 @@ def client_error_status(use_async: bool, ssel: int, bsel: int) -> str:
                     Resp.status = status
                     cl = SoapClientAsync('h:1', 1.0, hs.NullLogger(), None, SdcV1Definitions, reader, supported_encodings=[],
                                          request_encodings=[], chunk_size=0)
-                    cl._http_connection = SimpleNamespace(post=lambda path, data=None, headers=None: Resp(), closed=False)
+                    cl._http_connection = SimpleNamespace(post=lambda path, data=None, headers=None, **_kw: Resp(), closed=False)
                     msg = SimpleNamespace(p_msg=None, serialize=lambda request_manipulator=None: payload)
                     asyncio.run(cl.async_post_message_to('/p', msg))
                 else:
